@@ -1,14 +1,11 @@
 #!/bin/bash
 # usage: mutant.sh <patch.diff> <ID> [tier]
-# Applies a property-breaking patch to /repo, runs the check, ALWAYS reverts.
-# Exit 0 when the check reported a VIOLATION (mutant detected), 1 otherwise.
+# Runs check <ID> against /repo + patch (through the build overlay; /repo and
+# /verif/evidence are untouched). Exit 0 when the check reported a VIOLATION
+# (change detected), 1 when missed, 2 on harness error.
 P=$(readlink -f "$1"); ID=$2; TIER=${3:-quick}
-if ! git -C /repo diff --quiet; then echo "refusing: /repo has uncommitted changes" >&2; exit 2; fi
-git -C /repo apply "$P" || { echo "patch does not apply" >&2; exit 2; }
-trap 'git -C /repo checkout -- . ; git -C /repo clean -fdq' EXIT
-OUT=$(VERIF_ROOT=/verif /verif/run.sh $ID $TIER 2>&1); rc=$?
-echo "$OUT" | grep -E "VIOLATION|KNOWN-FINDING|HARNESS-ERROR|fingerprint|^$ID " | head -12
-# restore evidence written by the mutant run
-git -C /verif checkout -- evidence/$ID.json 2>/dev/null
-if [ $rc -eq 1 ] && echo "$OUT" | grep -q "^VIOLATION property=$ID"; then echo "MUTANT DETECTED ($1)"; exit 0; fi
-echo "MUTANT MISSED ($1) rc=$rc"; exit 1
+OUT=$(VERIF_PATCH="$P" /verif/run.sh $ID $TIER 2>&1); rc=$?
+echo "$OUT" | grep -E "VIOLATION|KNOWN-FINDING|HARNESS-ERROR|fingerprint:|^$ID " | head -12
+if [ $rc -eq 1 ] && echo "$OUT" | grep -q "^VIOLATION property=$ID"; then echo "DETECTED $ID $P"; exit 0; fi
+if [ $rc -eq 2 ]; then echo "$OUT" | tail -5; echo "HARNESS-ERROR $ID $P"; exit 2; fi
+echo "MISSED $ID $P (rc=$rc)"; exit 1
